@@ -129,11 +129,12 @@ EmptyHeap ==
     pc        |-> [sf |-> 8, ms |-> 256, mf |-> 2, tf |-> 6, kf |-> 1, df |-> 3, ff |-> 5],
     mutSinceWake |-> FALSE,                \* a mutator step happened since marking of this cycle began
     resurrected  |-> {},                   \* objects resurrected in this cycle
+    lost         |-> 0,                    \* blocks lost to a panicking destructor (unlinked, never released, still counted)
     leaked       |-> {},                   \* RefLock objects whose RefMut was leaked (mem::forget): frozen
     fault        |-> FALSE ]               \* an operator was applied outside its precondition
 
 NT(s, o) == NeedsTrace(s.kind[o])
-Count(s) == Cardinality({o \in Obj : s.alive[o]})          \* Metrics::total_gc_count
+Count(s) == Cardinality({o \in Obj : s.alive[o]}) + s.lost \* Metrics::total_gc_count
 InMark(s) == s.phase = "Mark"
 
 \* Metrics::allocation_debt, times 16
@@ -293,7 +294,10 @@ PartialTraceRoot(s, pos) ==
   IN IF pos = AllPos THEN TrWeakSet(st, s.rootW) ELSE st
 \* does marking this object call into a user Collect::trace at all?
 Ticks(s, o) == s.kind[o] \notin {"S", "D"} /\ ~(s.kind[o] = "O" /\ s.strong[o] = <<>>)
-NoFaultRec == [at |-> -1, pos |-> 0]
+\* dat: the dat-th user destructor run by this call panics (-1: none)
+NoFaultRec == [at |-> -1, pos |-> 0, dat |-> -1]
+\* kinds whose value has a user destructor
+HasDtor(k) == k \in {"N", "S", "F"}
 
 \* Context::sweep_one with sweep # None.  Returns [s, earn] with earn in {"free", "keep"}.
 SweepOne(s) ==
@@ -317,11 +321,33 @@ SweepOne(s) ==
     [] OTHER ->   \* gray object in the sweep region: debug_assert in the code
          [s |-> [s1 EXCEPT !.fault = TRUE], earn |-> "keep"]
 
+\* does sweeping the object under the cursor run a user destructor?
+SweepDestructs(s) ==
+  s.sweep # NoObj /\ s.live[s.sweep] /\ s.color[s.sweep] \in {"W", "WW"} /\ HasDtor(s.kind[s.sweep])
+
+\* sweep_one when that destructor panics (the panic leaves do_collection).
+\*  White arm: the object is already unlinked; the unwind skips dealloc and both counters: the block is
+\*    never released and stays counted (the crate does the same in Drop for Context: leaking is safe).
+\*  WhiteWeak arm: the header was flagged dead BEFORE the destructor ran, so the shell is what it would have
+\*    been; `dropped` and `remembered` are not counted.
+\* Either way the value counts as destructed: its destructor is never run again.
+SweepOnePanic(s) ==
+  LET o  == s.sweep
+      nx == s.next[o]
+      s1 == [s EXCEPT !.sweep = nx] IN
+  IF s.color[o] = "W"
+  THEN LET s2 == IF s.sweepPrev # NoObj THEN [s1 EXCEPT !.next[s.sweepPrev] = nx]
+                                        ELSE [s1 EXCEPT !.head = nx, !.fault = @ \/ s.head # o]
+       IN [s2 EXCEPT !.alive[o] = FALSE, !.live[o] = FALSE, !.strong[o] = <<>>, !.weak[o] = {},
+                     !.next[o] = NoObj, !.kind[o] = "N", !.slots[o] = <<>>, !.freeHead[o] = 0, !.lost = @ + 1]
+  ELSE [s1 EXCEPT !.sweepPrev = o, !.color[o] = "W", !.live[o] = FALSE,
+                  !.strong[o] = <<>>, !.weak[o] = {}, !.slots[o] = <<>>, !.freeHead[o] = 0]
+
 \* the end of a cycle: sweep_one's Break arm + Metrics::finish_cycle + root_needs_trace + switch(Sleep)
 EndSweep(s, reset) ==
   [FinishCycleM(s, reset) EXCEPT !.sweepPrev = NoObj, !.rootNT = TRUE, !.phase = "Sleep", !.resurrected = {}]
 
-\* Drop for Context
+\* Drop for Context.  (DropAllF below: with a destructor that panics.)
 DropAll(s) ==
   [s EXCEPT !.phase = "Dropped",
             !.alive = [o \in Obj |-> FALSE], !.live = [o \in Obj |-> FALSE],
@@ -333,6 +359,12 @@ DropAll(s) ==
             !.mutSinceWake = FALSE, !.resurrected = {},
             !.mt = [alloc |-> 0, marked |-> 0, traced |-> 0, remembered |-> 0, dropped |-> 0, freed |-> 0,
                     wakeQ |-> 0, artQ |-> 0]]
+
+\* Drop for Context while the dat-th destructor it runs panics: DropAll's guard resumes with the rest of
+\* the list during the unwind; the block of the value whose destructor panicked is skipped (lost)
+DropAllF(s, dat) ==
+  LET n == Cardinality({o \in Obj : s.alive[o] /\ s.live[o] /\ HasDtor(s.kind[o])})
+  IN [DropAll(s) EXCEPT !.lost = IF dat >= 0 /\ dat < n THEN @ + 1 ELSE @]
 
 -----------------------------------------------------------------------------
 (***************************************************************************)
@@ -415,7 +447,11 @@ Iter(s, c) ==
                 \* over (Metrics::finish_cycle(false)) and compared with the new wake-up amount
                 [s |-> s2, c |-> c, done |-> IF c.gran = "real" THEN DebtQ(s2) = 0
                                                    ELSE ~c.cont \/ c.budget = 0 \/ Count(s2) = 0]
-         ELSE LET r == SweepOne(s) IN After(r.s, Spend(c, 0, 0, 1))
+         ELSE IF SweepDestructs(s) /\ c.fault.dat = 0
+         THEN [s |-> SweepOnePanic(s), c |-> [c EXCEPT !.fault = NoFaultRec], done |-> TRUE]
+         ELSE LET r  == SweepOne(s)
+                  c1 == IF SweepDestructs(s) /\ c.fault.dat > 0 THEN [c EXCEPT !.fault.dat = @ - 1] ELSE c
+              IN After(r.s, Spend(c1, 0, 0, 1))
     [] OTHER -> [s |-> [s EXCEPT !.fault = TRUE], c |-> c, done |-> TRUE]
 
 RECURSIVE Loop(_, _)
@@ -436,7 +472,8 @@ IterTag(s, c) ==
     [] s.phase = "Sweep" ->
          IF StopOf(c.kind) <= 1 THEN <<"stop-sweep">>
          ELSE IF s.sweep = NoObj THEN <<"end-sweep", c.slept>>
-         ELSE <<"sweep", s.color[s.sweep], s.live[s.sweep], s.sweepPrev = NoObj, s.next[s.sweep] = NoObj>>
+         ELSE <<"sweep", s.color[s.sweep], s.live[s.sweep], s.sweepPrev = NoObj, s.next[s.sweep] = NoObj,
+                SweepDestructs(s) /\ c.fault.dat = 0>>
     [] OTHER -> <<"?">>
 
 RECURSIVE LoopSig(_, _)
